@@ -710,6 +710,26 @@ def optional_defaults_and_compound_keys(col):
             if got.ok != conforms or (got.ok and got.value != target):
                 col.violation('C09/nested-compound-key-%s' % ('conforming-target-rejected' if conforms else 'accepted'),
                               'Match({name: str, %s: float}) on %r: %r' % (kdesc, target, got), None)
+        pass
+    # (3) an Optional key is an EQUALITY key, whatever the constant looks like: a frozenset / tuple-with-frozenset constant is not
+    # matched element-wise
+    for const, near_misses in ((frozenset({'a', 'b'}), [frozenset({'a'}), frozenset()]), ((1, frozenset({2, 3})), [(1, frozenset({2})), (1, frozenset())])):
+        for dflt in (MISSING, 'dflt'):
+            okey = Optional(const) if dflt is MISSING else Optional(const, default=dflt)
+            pattern = {'name': str, okey: int}
+            cases = [({'name': 'p', const: 5}, True, {'name': 'p', const: 5}),
+                     ({'name': 'p'}, True, {'name': 'p'} if dflt is MISSING else {'name': 'p', const: dflt})]
+            cases += [({'name': 'p', nm: 5}, False, None) for nm in near_misses]
+            for target, conforms, want in cases:
+                got = call(G, target, Match(pattern))
+                col.case(('optional-constant-key', short(const), dflt is not MISSING, conforms, len(target)), True)
+                col.count('conforming_targets' if conforms else 'rejected_targets')
+                if got.ok != conforms or (got.ok and got.value != want) or (not got.ok and not isinstance(got.exc, MatchError)):
+                    col.violation('C09/optional-constant-key-%s' % ('conforming-target-rejected' if conforms else 'near-miss-accepted'),
+                                  'Match({name: str, Optional(%s%s): int}) on %r: %r, expected %s'
+                                  % (short(const), '' if dflt is MISSING else ', default=..', target, got, want if conforms else 'a MatchError'), None)
+    for key, kdesc in ((((int, int), 'seg'), "((int, int), 'seg')"), (((M > 0, 1), 'x'), "((M > 0, 1), 'x')"),
+                       ((frozenset({int}), 'x'), "(frozenset({int}), 'x')")):
         req, opt = call(Required, key), call(Optional, key)
         if not req.ok or opt.ok:
             col.violation('C09/nested-compound-key-required-optional', 'Required(%s) -> %r, Optional(%s) -> %r (a key with non-constant members is a '
